@@ -25,7 +25,7 @@ META = {
     "stubs": [],
 }
 
-DET = [("TA", dict(T=2)), ("TB", dict(T=2)), ("TC", dict(T=2, nw=3, nc=2)), ("TG", dict(T=1)), ("TH", dict(T=2)), ("TM", dict(T=2))]
+DET = [("TQ", dict(T=1)), ("TQ", dict(T=2)), ("TA", dict(T=2)), ("TB", dict(T=2)), ("TC", dict(T=2, nw=3, nc=2)), ("TG", dict(T=1)), ("TH", dict(T=2)), ("TM", dict(T=2))]
 
 
 def units(tier):
